@@ -203,6 +203,8 @@ type AuthConfig struct {
 
 // CreateAuthenticators creates authenticators based on config.
 // If HashedUsers is provided, it takes precedence over Users.
+// When cfg.Enabled is set a username/password authenticator is always present,
+// even if no credentials are configured (it then rejects every login).
 func CreateAuthenticators(cfg AuthConfig) []Authenticator {
 	var auths []Authenticator
 
@@ -211,8 +213,12 @@ func CreateAuthenticators(cfg AuthConfig) []Authenticator {
 		if len(cfg.HashedUsers) > 0 {
 			creds := HashedCredentials(cfg.HashedUsers)
 			auths = append(auths, NewUserPassAuthenticator(creds))
-		} else if len(cfg.Users) > 0 {
-			// Fall back to plaintext credentials (deprecated)
+		} else {
+			// Fall back to plaintext credentials (deprecated).
+			// The store may be empty (no user with a usable password): the
+			// authenticator is still installed so that every client is rejected.
+			// Returning no authenticator here would make NewHandler fall back to
+			// NoAuthAuthenticator and serve everybody although auth is enabled.
 			creds := StaticCredentials(cfg.Users)
 			auths = append(auths, NewUserPassAuthenticator(creds))
 		}
